@@ -874,7 +874,19 @@ func RuleH3(c *Ctx) {
 						if !isZero || (be.Op == token.NEQ) != fa.Truth {
 							return false
 						}
-						return c.slotOf(pk, fd, bodyInfo{body: fd.Body}, be.X) == slot
+						if c.slotOf(pk, fd, bodyInfo{body: fd.Body}, be.X) == slot {
+							return true
+						}
+						// `if err := mustBeUnset(slot); err != nil { return err }`: the helper answers
+						// non-nil only for a non-zero argument
+						if be.Op == token.NEQ == fa.Truth && tv.IsNil() {
+							if hc, ok := ast.Unparen(cfOuter.Resolve(be.X)).(*ast.CallExpr); ok {
+								if pi := c.rejectsNonZeroParam(Callee(info, hc)); pi >= 0 && pi < len(hc.Args) {
+									return c.slotOf(pk, fd, bodyInfo{body: fd.Body}, hc.Args[pi]) == slot
+								}
+							}
+						}
+						return false
 					}
 					inspectNoLit(fd.Body, func(y ast.Node) bool {
 						ret, ok := y.(*ast.ReturnStmt)
@@ -2240,4 +2252,60 @@ func RuleRP1(c *Ctx) {
 	if n == 0 {
 		sc.Undecided("sites", "-", "no required-parameter rejection found")
 	}
+}
+
+
+// rejectsNonZeroParam: g returns an error-like value that is non-nil only on paths on which
+// one of its parameters was found different from its zero value (`if p == nil { return nil };
+// return errors.New(...)`). Returns that parameter's index, or -1.
+func (c *Ctx) rejectsNonZeroParam(g *types.Func) int {
+	gd := c.P.Decl(g)
+	if gd == nil || gd.Type.Results == nil || len(gd.Type.Results.List) != 1 || gd.Type.Params == nil {
+		return -1
+	}
+	gpk := c.P.PkgOfDecl(gd)
+	info := gpk.TypesInfo
+	if !isErrorLike(info.TypeOf(gd.Type.Results.List[0].Type)) {
+		return -1
+	}
+	cf := c.CFG(gpk, gd.Body)
+	idx := 0
+	for _, fl := range gd.Type.Params.List {
+		for _, nm := range fl.Names {
+			obj := info.ObjectOf(nm)
+			i := idx
+			idx++
+			nonZero := func(fa cfgx.Fact) bool {
+				be, ok := ast.Unparen(fa.Expr).(*ast.BinaryExpr)
+				if !ok || (be.Op != token.EQL && be.Op != token.NEQ) || (be.Op == token.NEQ) != fa.Truth {
+					return false
+				}
+				id, ok := ast.Unparen(be.X).(*ast.Ident)
+				if !ok || info.ObjectOf(id) != obj {
+					return false
+				}
+				tv, ok := info.Types[be.Y]
+				return ok && (tv.IsNil() || (tv.Value != nil && (tv.Value.ExactString() == `""` || tv.Value.ExactString() == "0")))
+			}
+			good, n := true, 0
+			inspectNoLit(gd.Body, func(x ast.Node) bool {
+				ret, ok := x.(*ast.ReturnStmt)
+				if !ok || len(ret.Results) != 1 {
+					return true
+				}
+				if tv, has := info.Types[ret.Results[0]]; has && tv.IsNil() {
+					return true
+				}
+				n++
+				if !cf.MustAt(ret, nonZero, nil, nil) {
+					good = false
+				}
+				return true
+			})
+			if good && n > 0 && !assignedAnywhere(info, gd.Body, obj) {
+				return i
+			}
+		}
+	}
+	return -1
 }
